@@ -1,7 +1,7 @@
 (* C12 property theorems: statements only, each closed by [exact]. *)
 From Boltons Require Import Lib.Prelude Lib.C12_Base Spec.C12_Spec Model.C12_Model
   Proofs.C12_Find Proofs.C12_Recv Proofs.C12_Send Proofs.C12_Main Proofs.C12_Chunking
-  Proofs.C12_Netstring Proofs.C12_Consts Gen.C12_Gen.
+  Proofs.C12_Netstring Proofs.C12_NsRefine Proofs.C12_Consts Gen.C12_Gen.
 
 (* --- the rolling search offset of recv_until loses no occurrence ------------------- *)
 Theorem C12_find_rolling : forall d old nxt stop,
@@ -163,6 +163,37 @@ Example C12_netstring_ex :
   ns_read_retry (ns_init 10 [Chunk [51]; TimeoutEv; Chunk [58;58;44]; TimeoutEv; Chunk [49;44;48];
                              Chunk [58;44]]%N []) 2 = [OBytes [58;44;49]; OBytes []]%N.
 Proof. vm_compute. reflexivity. Qed.
+
+(* --- netstrings, refinement: for every writer history (write_ns / bsock.flush / setmaxsize under any
+       partial sends, time-outs and socket errors) that ends flushed, and every reader history (read_ns with or
+       without per-call maxsize, setmaxsize) over that wire (plus arbitrary junk), cut into deliveries and
+       interrupted in any way, the model's observations satisfy exactly the predicate [spec_ns_holds] that
+       the check evaluates on the implementation for NSCase ------------------------------------------------ *)
+Theorem C12_ns_refines_spec : forall wmax wsc wops rmax n junk rops,
+  forallb is_wop wops = true -> forallb is_rop rops = true ->
+  let '(wobs, w) := ns_run true 0 (ns_init wmax [] wsc) wops in
+  getsendbuffer (ns_bs w) = [] ->
+  wf_net n = true -> flat n = wire (ns_bs w) ++ junk ->
+  let '(robs, _) := ns_run false (length (flat n)) (ns_init rmax n []) rops in
+  spec_ns_holds wmax (sintrs wsc) wobs (wire (ns_bs w)) rmax (flat n) junk (intrs n) robs = true.
+Proof. exact ns_refines_spec. Qed.
+Print Assumptions C12_ns_refines_spec.
+
+(* a read_ns that ends in an interruption has consumed nothing, whatever the stream *)
+Theorem C12_read_ns_interrupted : forall x m out x',
+  ns_inv x -> read_ns x m = (out, x') -> is_interrupt out = true ->
+  exists e, out = OExn e /\ ns_rem x' = ns_rem x /\ ns_tmo x = e :: ns_tmo x' /\
+            ns_inv x' /\ ns_maxsize x' = ns_maxsize x /\ ns_suffix x x'.
+Proof. exact read_ns_interrupted. Qed.
+Print Assumptions C12_read_ns_interrupted.
+
+Example C12_ns_writer_ex :
+  let '(wobs, w) := ns_run true 0 (ns_init 100 [] [SAccept 1; SErrorEv 11; SAccept 0; STimeoutEv; SAccept 30])
+                      [WriteNs [104;105]%N; WriteNs [58;44]%N; NsFlush; NsSetMaxsize 1; WriteNs [1;2]%N; WriteNs []%N] in
+  map (fun x => o_out (snd x)) wobs =
+    [OExn (OSErr 11); OExn Timeout; ONone; ONone; OExn NetstringMessageTooLong; ONone] /\
+  wire (ns_bs w) = [50;58;104;105;44; 50;58;58;44;44; 48;58;44]%N /\ getsendbuffer (ns_bs w) = [].
+Proof. vm_compute. repeat split; reflexivity. Qed.
 
 (* --- (T) constants regenerated from boltons/socketutils.py on every run ------------------------ *)
 (* the model's DEFAULT_MAXSIZE (maxsize and recvsize of NetstringSocket's inner BufferedSocket) is
